@@ -42,7 +42,9 @@ Definition run_table (t : Tree) : Tree :=
     if by_id then permb (ids a tb) (nth 0 draws [])
     else if wr then multis_okb (Z.to_nat n) (gather_all vs lay) draws
     else draws_okb (Z.to_nat n) (map zsum vs) draws in
-  L [eTable (fst r); eResult eTable (snd r); eB (if by_id then true else lay_okb vs lay); eB contract].
+  let refused := (n <? 0)%Z || (wr && by_id) in        (* nothing is drawn, no kernel runs *)
+  L [eTable (fst r); eResult eTable (snd r); eB (refused || (if by_id then true else lay_okb vs lay));
+     eB (refused || contract)].
 
 (* [1; with_replacement; n; indptr; data; draws] -> the arrays after the compiled kernel
      without replacement: [data'; draws left; in-bounds flag]     with: [0; data'] | error *)
